@@ -127,13 +127,25 @@ func VH_C10_list() {
 // VH_C10_wide: a 14-column sequence (positions >= 10) that equals the reference except in a window of four
 // symbolic columns placed anywhere: the written row.
 func VH_C10_wide() {
-	W := 14
+	W := vParam("W")
 	BS := vBaseSetTable()
 	SG := vSingleTable()
 	UP := vUpperTable()
-	ref := []byte("ACGTACGTACGTAC")
+	ref := make([]byte, W)
+	for i := range ref {
+		ref[i] = "ACGT"[i%4]
+	}
 	seq := append([]byte{}, ref...)
-	off := vChoice("offset", W-3)
+	var off int
+	if W <= 20 {
+		off = vChoice("offset", W-3)
+	} else {
+		// long rows: the window sits where positions gain a digit (9|10, 99|100) or at the end
+		off = []int{6, 7, 8, 9, 96, 97, 98, 99, W - 4}[vChoice("offset", 9)]
+		// and a fixed ambiguity tract and SNP elsewhere, so that every list has several entries
+		seq[49], seq[50], seq[51] = 'N', 'N', 'N'
+		seq[29] = "CGTA"[29%4]
+	}
 	for i := off; i < off+4; i++ {
 		seq[i] = vNuc(vName("s", i-off), vSigma34)
 	}
